@@ -334,6 +334,7 @@ static void worker (long start, void *user)
   v_out ("{\"t\":\"stat\",\"programs\":%ld,\"programs_native\":%ld,\"compiled\":%ld,\"nocompile\":%ld,\"runs\":%ld,\"points\":%ld,\"elements\":%ld,\"violations_raw\":%ld}",
       st_programs, st_progs_native, st_compiled, st_nocompile, st_runs, st_pt, st_elems, st_viol);
   v_out ("{\"t\":\"max\",\"space_size\":%ld}", g_idx);
+  if (vr_ftz_before_rounding) v_out ("{\"t\":\"viol\",\"key\":\"C18|paths|ftz-before-rounding\",\"what\":\"native float code returned a zero where emulation returns the smallest normal (result tiny before rounding, normal after): %ld elements in this shard\",\"replay\":{\"program\":\".function t\\n.dest 4 d1\\n.source 4 s1\\n.source 4 s2\\nmulf d1, s1, s2\\n\",\"a\":\"0x3f7fffff\",\"b\":\"0x00800000\"}}", vr_ftz_before_rounding);
   if (v_expired ()) v_out ("{\"t\":\"incomplete\",\"why\":\"deadline reached at program index %ld of shard %d\"}", g_idx, opt.shard);
 }
 
@@ -347,6 +348,8 @@ int main (int argc, char **argv)
   opt.targets = v_arg (argc, argv, "--targets", "avx,sse,mmx");
   opt.corpus = v_arg (argc, argv, "--corpus", NULL);
   opt.only = v_arg (argc, argv, "--only", NULL);
+  vr_float_mode = !strcmp (v_arg (argc, argv, "--classes", "int"), "float");
+  v_finite_only = vr_float_mode;
   opt.classes = !strcmp (v_arg (argc, argv, "--classes", "int"), "float") ? PG_FLOAT : !strcmp (v_arg (argc, argv, "--classes", "int"), "both") ? (PG_INT | PG_FLOAT) : PG_INT;
   dl = v_argi (argc, argv, "--deadline", 0);
   if (dl > 0) v_deadline = v_now () + dl;
